@@ -22,6 +22,7 @@ def main():
         else:
             raise SystemExit("bad arg " + args[i])
     root = os.path.join(os.environ.get("VERIF_ROOT", "/verif"), "harness")
+    repo = os.environ.get("VERIF_REPO", "/repo")
     for d, _, files in os.walk(root):
         rel = os.path.relpath(d, root)
         for f in files:
@@ -30,9 +31,9 @@ def main():
             src = os.path.join(d, f)
             if rel.startswith("inject"):
                 pkg = os.path.relpath(rel, "inject")
-                dst = os.path.join("/repo", pkg, "zzverif_" + f)
+                dst = os.path.join(repo, pkg, "zzverif_" + f)
             else:
-                dst = os.path.join("/repo/zzverif", rel, f)
+                dst = os.path.join(repo, "zzverif", rel, f)
             repl.setdefault(dst, src)
     with open(out, "w") as f:
         json.dump({"Replace": repl}, f, indent=1, sort_keys=True)
